@@ -120,7 +120,7 @@ def prefix_ok(a, b):
 
 
 def replay_lines(ci):
-    return [l for l in ci if l[:2] in ("G ", "D ", "A ", "S ", "E ") or l.startswith("DL ")]
+    return [l for l in ci if l[:2] in ("G ", "D ", "A ", "S ", "E ", "O ") or l.startswith("DL ")]
 
 
 def graph_features(g):
@@ -152,12 +152,19 @@ class Tot:
         self.n = {"net_cases": 0, "net_ok": 0, "sim_cases": 0, "sim_ticks": 0, "hdl_cases": 0, "hdl_clocks": 0, "hdl_ok": 0,
                   "stream_compared": 0, "stream_live": 0, "stream_values": 0, "excluded_by_PortReuseSafe": 0, "no_traffic": 0,
                   "env_checked": 0, "model_stream_checked": 0, "noise_cases": 0, "ref_checked": 0,
-                  "dly_cases": 0, "delayed_runs": 0, "delayed_live": 0, "delayed_live_fanout": 0}
+                  "commented_verilog_cases": 0, "onlydestregs_cases": 0, "dly_cases": 0, "delayed_runs": 0, "delayed_live": 0, "delayed_live_fanout": 0}
         self.dist = {"procs": {}, "rsize": {}, "maxfan": {}, "inputs": {}, "outputs": {}, "mixed_consumers": 0, "unlinked_sinks": 0,
                      "unconsumed_drivers": 0, "bonds": 0}
         self.distinct = set()
         self.fails = []
         self.samples = []
+
+    def opts(self, ci):
+        o = tagged(ci, "O") or ""
+        if "commented=1" in o:
+            self.n["commented_verilog_cases"] += 1
+        if "onlydestregs=1" in o:
+            self.n["onlydestregs_cases"] += 1
 
     def feat(self, g):
         ft = graph_features(g)
@@ -180,6 +187,7 @@ def compare(tot, ci_all, cm_all, mode):
             tot.fails.append(dict(base, kind="harness-build", detail=g[:300]))
             continue
         ft = tot.feat(g)
+        tot.opts(ci)
         if mode == "net":
             tot.n["net_cases"] += 1
             n = tagged(cm, "N")
@@ -416,6 +424,9 @@ def run(rep):
         "timing independence of the simulator itself: a second (and for machines with fan-out to several processors a third and fourth) real VM runs the "
         "same machine and environment with VM.SimDelayMap = single-valued per-opcode latencies (1..23 idle ticks after inc/add/cpy/nop/j/i2rw/r2owa/...), "
         "4 x the ticks; its delivered streams must be prefix-compatible with the undelayed simulator's and with the HDL's (modes hdl and dly)",
+        "generator options: a third of the machines are emitted with Config.CommentedVerilog, a quarter of the hdl machines with the hardware "
+        "optimisation OnlyDestRegs (register sets recorded through HLAssemblerNormalize); OnlySrcRegs only concerns opcodes outside C02's set; "
+        "flavor is iverilog (only shared objects / board files depend on it)",
         "streams are compared prefix-wise up to the horizon (ticks / 1.5 x clocks); a world that stops delivering while the other continues is reported",
     ]
     tot = Tot()
